@@ -139,8 +139,23 @@ def _gauss(ny, nx, srcs):
 def gen_scene(rng, small):
     ny = rng.randint(5, 8 if small else 12)
     nx = rng.randint(6, 10 if small else 16)
-    kind = rng.choice(['gauss', 'gauss', 'gauss', 'clusters', 'plateau', 'ridge', 'hand', 'noise'])
-    if kind in ('gauss', 'clusters'):
+    kind = rng.choice(['gauss', 'gauss', 'multi', 'multi', 'multi', 'clusters', 'plateau', 'ridge', 'hand', 'noise'])
+    if kind == 'multi':
+        # 2-4 well separated blends (each two or three overlapping sources): several parents are
+        # deblended in one call, so the running max_label and the completion order matter
+        ngroups = rng.randint(2, 4)
+        th, tw = rng.randint(6, 8), rng.randint(10, 12)
+        ny, nx = th, tw * ngroups
+        srcs = []
+        for g in range(ngroups):
+            yc, xc = (th - 1) / 2 + rng.uniform(-1, 1), g * tw + (tw - 1) / 2
+            sep = rng.choice([3.5, 4.0, 5.0])
+            for k in range(rng.choice([2, 2, 3])):
+                srcs.append((rng.choice([60, 100, 150, 200]), yc + rng.uniform(-1, 1),
+                             xc + (k - 0.5) * sep + rng.uniform(-0.3, 0.3), rng.choice([0.8, 1.0, 1.2]))
+                            if k < 2 else (rng.choice([60, 100]), yc + rng.choice([-2.5, 2.5]), xc, 0.8))
+        data = np.round(_gauss(ny, nx, srcs))
+    elif kind in ('gauss', 'clusters'):
         srcs = []
         ngroups = 1 if kind == 'gauss' else rng.randint(2, 3)
         for _ in range(ngroups):
@@ -189,6 +204,8 @@ def gen_case(rng, small=False):
     conn_det = rng.choice([4, 8])
     npix_det = rng.choice([1, 2, 3, 5])
     thr = rng.choice([0, 0, 1, 2, 5])
+    if kind == 'multi':
+        thr = rng.choice([2, 3, 5])
     seg = None
     if kind != 'hand':
         with warnings.catch_warnings():
@@ -248,6 +265,10 @@ def gen_case(rng, small=False):
     npix = rng.choice([1, 2, 2, 3, 3, 5, 8])
     nlevels = rng.choice([1, 2, 4, 8, 32])
     contrast = rng.choice([0, 0.0, 0.001, 0.001, 0.01, 0.1, 0.3, 0.5, 1.0])
+    if kind == 'multi' and rng.random() < 0.8:
+        npix = rng.choice([1, 2, 3])
+        nlevels = rng.choice([4, 8, 32])
+        contrast = rng.choice([0, 0.001, 0.01, 0.1])
     mode = rng.choice(['exponential', 'linear', 'sinh'])
     conn = conn_det if rng.random() < 0.85 else 12 - conn_det
     relabel = rng.random() < 0.5
@@ -599,12 +620,14 @@ def strip_res(res):
 def run(ctx):
     ctx.build(FILES)
     ctx.cov['rule'] = (
-        'blended scenes (2-5 overlapping rounded Gaussians, clusters, plateaus, ridges with saddles, noise, '
-        'hand-made segmentations incl. disconnected parents) -> detect_sources or hand labels; label gaps and '
+        'blended scenes (2-5 overlapping rounded Gaussians, 2-4 separate blends deblended in one call, clusters, '
+        'plateaus, ridges with saddles, noise, hand-made segmentations incl. disconnected parents) -> '
+        'detect_sources or hand labels; label gaps and '
         'non-raster label order, tiny segments, merged labels, 8 integer dtypes, labels at the dtype maximum, '
         're-deblending; labels=None/subset/shuffled/duplicates/scalar/empty/invalid; nlevels, contrast '
         '(incl. 0, 1, invalid), 3 modes (+invalid), connectivity equal/different from detection, relabel; '
-        'serial run + nproc>1 path under chosen completion orders (+ real spawn pools); non-trivial = at least '
+        'serial run + nproc>1 path under EVERY completion order for <=3 tasks (quick) / <=4 tasks (thorough), '
+        'reversed + random orders above (+ real spawn pools); non-trivial = at least '
         'one parent is deblended or an error branch is taken; distinct = distinct (scene, arguments, order)')
     ctx.assumptions += [
         'make_markers / skimage watershed / contrast pruning (apply_watershed) are not modelled: their output '
@@ -651,42 +674,40 @@ def run(ctx):
         ctx.stat('result', res.get('exc') or ('deblended' if res['ok']['inverse_map'] else 'nothing-deblended'))
         if 'ok' in res:
             ctx.stat('parents_deblended', str(len(res['ok']['inverse_map'])))
-        # schedules: the nproc>1 code path under chosen completion orders
-        if case['contrast'] == 1 or case['nlevels'] < 1 or not (0 <= case['contrast'] <= 1) or case['mode'] == 'bad':
-            ntasks = 0
-        else:
-            seg_arr = meta[-1][1]
-            lab = [int(v) for v in np.unique(seg_arr) if v] if case['labels'] is None else \
-                [int(v) for v in np.atleast_1d(case['labels'])]
-            ntasks = sum(1 for l in lab if (seg_arr == l).sum() >= 2 * case['npix'])
-        ctx.stat('tasks', str(min(ntasks, 6)))
-        if ntasks == 0 and ctx.rng.random() < 0.8:
-            continue
-        if ntasks <= 3:
-            perms = list(itertools.permutations(range(ntasks)))
-        else:
-            perms = [tuple(reversed(range(ntasks)))]
-            for _ in range(3):
-                p = list(range(ntasks))
-                ctx.rng.shuffle(p)
-                perms.append(tuple(p))
-        if quick and len(perms) > 3:
-            perms = ctx.rng.sample(perms, 3)
-        for perm in perms:
+        # schedules: the nproc>1 code path with an in-process executor.  First in submission
+        # order (this also tells how many futures the call really submits), then under every
+        # other completion order (few tasks) or reversed + random ones (many tasks)
+        def schedule(perm):
             nproc = ctx.rng.choice([2, 3, 4, 16])
-
-            def order_fn(n, perm=perm):
-                return perm if n == len(perm) else range(n)
-            res2, _ = add(case, nproc, order_fn, 'schedule')
+            res2, _ = add(case, nproc, (lambda n: list(range(n))) if perm is None else
+                          (lambda n, perm=perm: list(perm) if n == len(perm) else list(range(n))), 'schedule')
+            order = meta[-1][5]
             ctx.stat('schedule', 'permutations_run')
-            if meta[-1][5] != list(perm):
-                ctx.stat('schedule', 'harness_task_count_differs')
+            if perm is not None and order != list(perm):
+                ctx.stat('schedule', 'task_count_changed_between_runs')
             a, b = strip_res(res), strip_res(res2)
             if a != b:
                 ctx.violation('deblend_sources:schedule-dependent',
-                              f'nproc={nproc} with completion order {list(perm)} differs from nproc=1',
-                              {'case': describe(case), 'nproc': nproc, 'order': list(perm), 'serial': a,
+                              f'nproc={nproc} with completion order {order} differs from nproc=1',
+                              {'case': describe(case), 'nproc': nproc, 'order': order, 'serial': a,
                                'parallel': b, 'cmd': 'bin/check C06 --replay <this file>'})
+            return len(order)
+        ntasks = schedule(None)
+        ctx.stat('tasks', str(min(ntasks, 6)))
+        if ntasks <= 1:
+            continue
+        limit = 3 if quick else 4
+        if ntasks <= limit:      # every completion order
+            perms = [q for q in itertools.permutations(range(ntasks)) if list(q) != list(range(ntasks))]
+        else:
+            perms = [tuple(reversed(range(ntasks)))]
+            for _ in range(3 if quick else 8):
+                q = list(range(ntasks))
+                ctx.rng.shuffle(q)
+                perms.append(tuple(q))
+        ctx.stat('schedule', 'exhaustive_cases' if ntasks <= limit else 'sampled_cases')
+        for perm in perms:
+            schedule(perm)
     ctx.sample({'case': describe(cases[-1]), 'impl': strip_res(meta[-1][6])})
 
     # real process pools (spawn): sampled
